@@ -398,6 +398,7 @@ func concurrent(run *vk.Run, round uint64, stores int) {
 	var stop atomic.Bool
 	var wg sync.WaitGroup
 	var bad atomic.Int64
+	idxOf := make([]atomic.Uint32, 4096) // slot index returned by Store for gen (mod 4096)
 	report := func(key, what string, rep any) {
 		bad.Add(1)
 		run.Violation(key, what, rep)
@@ -411,7 +412,8 @@ func concurrent(run *vk.Run, round uint64, stores int) {
 			l := lenOf(g)
 			fill(buf[:l], g, seqOf(g))
 			started.Store(g)
-			c.Store(seqOf(g), uint32(g), g%16 == 0, g%3 == 0, buf[:l])
+			_, idx := c.Store(seqOf(g), uint32(g), g%16 == 0, g%3 == 0, buf[:l])
+			idxOf[g%uint64(len(idxOf))].Store(uint32(idx))
 			done.Store(g)
 			if g%64 == 0 {
 				runtime.Gosched()
@@ -445,7 +447,7 @@ func concurrent(run *vk.Run, round uint64, stores int) {
 			rr := run.Rand(4, round, uint64(w))
 			out := make([]byte, maxLen)
 			want := make([]byte, maxLen)
-			var hits, fresh int64
+			var hits, fresh, byIdx int64
 			for !stop.Load() {
 				d := done.Load()
 				if d == 0 {
@@ -461,8 +463,18 @@ func concurrent(run *vk.Run, round uint64, stores int) {
 				}
 				g := d - back
 				s := seqOf(g)
-				n := c.Get(s, out)
+				var n uint16
+				byIndex := rr.IntN(2) == 0 && back < uint64(len(idxOf))-8
+				if byIndex {
+					// the writers' way: by (seqno, slot); a recycled or moved slot answers nothing
+					n = c.GetAt(s, uint16(idxOf[g%uint64(len(idxOf))].Load()), out)
+				} else {
+					n = c.Get(s, out)
+				}
 				after := started.Load()
+				if n == 0 && byIndex {
+					continue // the slot may have been recycled or invalidated by a resize
+				}
 				if n == 0 {
 					// fewer than minCap stores started since g completed => it must be held
 					if after-g < uint64(minCap)-1 {
@@ -473,6 +485,9 @@ func concurrent(run *vk.Run, round uint64, stores int) {
 					continue
 				}
 				hits++
+				if byIndex {
+					byIdx++
+				}
 				if after-g < uint64(minCap)-1 {
 					fresh++
 				}
@@ -496,6 +511,7 @@ func concurrent(run *vk.Run, round uint64, stores int) {
 			}
 			run.Count("concurrent_reads_validated", hits)
 			run.Count("concurrent_fresh_reads", fresh)
+			run.Count("concurrent_reads_by_slot_validated", byIdx)
 		}(w)
 	}
 	wg.Wait()
@@ -548,6 +564,7 @@ func main() {
 	run.FloorCounter("histories_with_shrink", 50)
 	run.FloorCounter("concurrent_reads_validated", 1000)
 	run.FloorCounter("concurrent_fresh_reads", 100)
+	run.FloorCounter("concurrent_reads_by_slot_validated", 100)
 	run.Assume("packet sizes 1..1504 (the property's range); the separately stored timestamp/marker words are not observable through the public API, the stored bytes are whole packets")
 	run.Assume("race detector build: reports are logged by the child (halt_on_error=0) and turned into violations by the parent when an access lies in packetcache/")
 	run.Finish("exploration", "histories of Store/Get/GetAt/Resize/ResizeCond/Last/Keyframe generated from (seed,index): 4 seqno modes (sequential, reorder+dup+gap, random, mixed), capacities 1..65535 biased small, sizes 1..1504; distinct_nontrivial = distinct (mode, grow, shrink, wrap, dup, log2 capacity, length class) shapes among histories that had an eviction and a resize; plus concurrent rounds of 1 writer + 1 resizer + 14 validating readers under -race")
